@@ -142,6 +142,22 @@ theorem C13_prefix_mult (p : PrefixRec) (hp : p ∈ table.prefixes) : p.mult = (
   rw [List.all_eq_true] at h
   exact prefixMultOk_sound p (h p hp)
 
+/-- **C13 (the prefixes are the SI and binary prefixes).** Every entry of `PREFIXES` is one of the reference
+    prefixes (hand-written: yotta…yocto with `k` and `K` for kilo, kibi…tebi) with the same name, symbol, base and
+    exponent — so together with `C13_prefix_mult` its multiplier is the documented power — and none is missing. -/
+theorem C13_prefix_table :
+    (∀ p ∈ table.prefixes, ∃ r ∈ refPrefixes, r.name = p.name ∧ r.sym = p.sym ∧ r.base = p.base ∧ r.exp = p.exp) ∧
+    (∀ r ∈ refPrefixes, ∃ p ∈ table.prefixes, r.name = p.name ∧ r.sym = p.sym ∧ r.base = p.base ∧ r.exp = p.exp) := by
+  have h := Table.prefixRef
+  simp only [prefixesMatchRef, prefixIsRef, Bool.and_eq_true, List.all_eq_true, List.any_eq_true, decide_eq_true_eq] at h
+  constructor
+  · intro p hp
+    obtain ⟨r, hr, ⟨⟨h1, h2⟩, h3⟩, h4⟩ := h.1 p hp
+    exact ⟨r, hr, (eqCp_iff _ _).1 h1, (eqCp_iff _ _).1 h2, Nat.eq_of_beq_eq_true h3, h4⟩
+  · intro r hr
+    obtain ⟨p, hp, ⟨⟨h1, h2⟩, h3⟩, h4⟩ := h.2 r hr
+    exact ⟨p, hp, (eqCp_iff _ _).1 h1, (eqCp_iff _ _).1 h2, Nat.eq_of_beq_eq_true h3, h4⟩
+
 /-- table fact: no prefix has an empty name or symbol, and two prefixes that share a name or a symbol have the
     same multiplier (so "which of the two kilos" never matters) -/
 theorem C13_prefixes_distinct (p q : PrefixRec) (hp : p ∈ table.prefixes) (hq : q ∈ table.prefixes) :
